@@ -166,6 +166,8 @@ def r3(ctx):
                   found="; ".join(f"{'' if pol else 'not '}({t})" for t, pol, _o in skips))
         rng = s.loop_ranges[-1] if s.loops else None
         want = Range(0, Attr(Attr(Sym(fi.params[0]), "arguments"), "num_clusters"))
+        if rng is not None and rng != want:
+            rng = tm.unshallow(rng)          # the cluster count of a fresh shallow copy is the original's
         ctx.check(rng == want, fi, "the loop visits every cluster id in range(num_clusters)", line=s.stmt.lineno, role="range",
                   expected=str(want), found=str(rng))
         # the state whose clusters are updated is a copy of the input state (membership is the input's)
@@ -242,6 +244,11 @@ def r4(ctx):
             if isinstance(n, ast.ListComp):
                 t = bc.term(n)
                 calls += [x for x in tm.subterms(t) if isinstance(x, App) and x.fn == setup.qualname]
+    if not calls:
+        try:
+            calls = [x for x in tm.subterms(bc.return_term()) if isinstance(x, App) and x.fn == setup.qualname]     # append-loop form
+        except Exception:
+            calls = []
     if not calls:
         raise AnalysisError("call of _setup_optimization_task not found in optimize_markov_random_fields")
     m = Sym(caller.params[0])
